@@ -743,7 +743,10 @@ class BlockBase(Base):
             while i < len(classes):
                 if enable_do_label_construct_hook:
                     # Multiple, labelled DO statements can reference the
-                    # same label.
+                    # same label. Comments, includes and directives in
+                    # front of the next statement belong to this block and
+                    # must not hide a DO statement that shares the label.
+                    DynamicImport.add_comments_includes_directives(content, reader)
                     obj = startcls(reader)
                     if obj is not None and hasattr(obj, "get_start_label"):
                         if start_label == obj.get_start_label():
